@@ -2360,17 +2360,29 @@ impl Write for SummaryStream {
          * Look for the last complete pkg_summary(5) record, if there are none
          * then go to the next input.
          */
-        let input_string = match std::str::from_utf8(&self.buf) {
-            Ok(s) => {
-                if let Some(last) = s.rfind("\n\n") {
-                    s.get(0..last + 2).unwrap()
-                } else {
-                    return Ok(input.len());
+        /*
+         * The input may end in the middle of a multi-byte character, in which
+         * case only the valid prefix is considered for now and the remainder
+         * is kept for the next write.  Only a sequence that can never become
+         * valid is an error, reported once any complete records before it
+         * have been processed.
+         */
+        let (valid, invalid) = match std::str::from_utf8(&self.buf) {
+            Ok(s) => (s, None),
+            Err(e) => (
+                std::str::from_utf8(&self.buf[..e.valid_up_to()])
+                    .unwrap_or_default(),
+                e.error_len().map(|_| e),
+            ),
+        };
+        let input_string = match valid.rfind("\n\n") {
+            Some(last) => &valid[..last + 2],
+            None => match invalid {
+                Some(e) => {
+                    return Err(io::Error::new(io::ErrorKind::InvalidData, e))
                 }
-            }
-            Err(e) => {
-                return Err(io::Error::new(io::ErrorKind::InvalidData, e))
-            }
+                None => return Ok(input.len()),
+            },
         };
 
         /*
@@ -2396,7 +2408,10 @@ impl Write for SummaryStream {
         let slen = input_string.len();
         self.buf = self.buf.split_off(slen);
 
-        Ok(input.len())
+        match invalid {
+            Some(e) => Err(io::Error::new(io::ErrorKind::InvalidData, e)),
+            None => Ok(input.len()),
+        }
     }
 
     fn flush(&mut self) -> std::io::Result<()> {
